@@ -11,6 +11,12 @@ require (
 	verifsim.local/simrt v0.0.0
 )
 
+require (
+	github.com/andybalholm/cascadia v1.3.2 // indirect
+	github.com/gogs/chardet v0.0.0-20211120154057-b7413eaefb8f // indirect
+	golang.org/x/sys v0.8.0 // indirect
+)
+
 replace github.com/markusmobius/go-domdistiller => /repo
 
 replace verifsim.local/simrt => ./simrt
